@@ -21,6 +21,13 @@ theorem digit_not_ws {c : Char} (h : isAsciiDigit c = true) : isPyWs c = false :
   refine ⟨⟨⟨⟨⟨⟨⟨⟨⟨?_, ?_⟩, ?_⟩, ?_⟩, ?_⟩, ?_⟩, ?_⟩, ?_⟩, ?_⟩, ?_⟩ <;>
     (intro hc; subst hc; simp at hr)
 
+theorem digit_not_numws {c : Char} (h : isAsciiDigit c = true) : isNumWs c = false := by
+  have hr := digit_range h
+  unfold isNumWs
+  simp only [Bool.or_eq_false_iff, decide_eq_false_iff_not]
+  refine ⟨⟨⟨⟨⟨?_, ?_⟩, ?_⟩, ?_⟩, ?_⟩, ?_⟩ <;>
+    (intro hc; subst hc; simp at hr)
+
 /-- the "outside the model" test of `pyInt`/`pyFloat` -/
 def bad (c : Char) : Bool := c = '_' || c.toNat ≥ 128
 def lowerf (c : Char) : Char := if 65 ≤ c.toNat ∧ c.toNat ≤ 90 then Char.ofNat (c.toNat + 32) else c
@@ -95,9 +102,47 @@ theorem strip_padded {s : List Char} {c d : Char} {r : List Char}
   unfold strip
   rw [lstrip_dropBlanks, hs, lstrip_cons_nonws hc, rstrip_of_last hl hd]
 
+/-! ### the strip of `int()` / `float()` (`numStrip`: the blank, `\t \n \v \f \r`; not 0x1c–0x1f) -/
+
+theorem nlstrip_cons_nonws {c : Char} {s : List Char} (h : isNumWs c = false) : nlstrip (c :: s) = c :: s := by
+  simp [nlstrip, h]
+
+theorem nlstrip_blank (s : List Char) : nlstrip (' ' :: s) = nlstrip s := by
+  simp [nlstrip, isNumWs]
+
+theorem nlstrip_dropBlanks (s : List Char) : nlstrip s = nlstrip (s.dropWhile (· == ' ')) := by
+  induction s with
+  | nil => rfl
+  | cons c cs ih =>
+    by_cases hc : c = ' '
+    · subst hc; rw [nlstrip_blank, ih]; simp
+    · simp [hc]
+
+theorem nrstrip_of_last {s : List Char} {c : Char} (hl : s.getLast? = some c) (hc : isNumWs c = false) :
+    nrstrip s = s := by
+  unfold nrstrip
+  have : s.reverse.head? = some c := by simpa using hl
+  cases hr : s.reverse with
+  | nil => rw [hr] at this; simp at this
+  | cons x xs =>
+    rw [hr] at this
+    simp only [List.head?_cons, Option.some.injEq] at this
+    subst this
+    rw [nlstrip_cons_nonws hc, ← hr, List.reverse_reverse]
+
+theorem numStrip_padded {s : List Char} {c d : Char} {r : List Char}
+    (hs : s.dropWhile (· == ' ') = c :: r) (hc : isNumWs c = false)
+    (hl : (c :: r).getLast? = some d) (hd : isNumWs d = false) : numStrip s = c :: r := by
+  unfold numStrip
+  rw [nlstrip_dropBlanks, hs, nlstrip_cons_nonws hc, nrstrip_of_last hl hd]
+
+/-- the separators 0x1c–0x1f are whitespace for `str.strip()` but not for `int()`: `int("\x1c5")` is a ValueError -/
+example : strip ['\x1c', '5'] = ['5'] ∧ numStrip ['\x1c', '5'] = ['\x1c', '5'] ∧ pyInt ['\x1c', '5'] = .valueError := by
+  decide
+
 /-! ### `int(text)` -/
 
-theorem pyInt_of_strip {s t : List Char} (hs : strip s = t) (hd : t.all isAsciiDigit = true) (hne : t ≠ []) :
+theorem pyInt_of_strip {s t : List Char} (hs : numStrip s = t) (hd : t.all isAsciiDigit = true) (hne : t ≠ []) :
     pyInt s = .ok (natOfDigits t : Int) := by
   unfold pyInt
   simp only [hs]
@@ -133,7 +178,7 @@ theorem pyInt_padded {s : List Char} (hne : (s.dropWhile (· == ' ')).isEmpty = 
       refine ⟨(c :: r).getLast hne', List.getLast?_eq_some_getLast hne', ?_⟩
       exact all_digits_mem hd _ (List.getLast_mem hne')
     obtain ⟨d, hl, hdd⟩ := hlast
-    have := strip_padded hs (digit_not_ws hc) hl (digit_not_ws hdd)
+    have := numStrip_padded hs (digit_not_numws hc) hl (digit_not_numws hdd)
     exact pyInt_of_strip this hd (by simp)
 
 end PV.C02
